@@ -420,6 +420,12 @@ class DecimalFieldFormat(AbstractFieldFormat):
                         "decimal field must contain thousands separator (%r) only before "
                         "decimal separator (%r): %r " % (self.thousands_separator, self.decimal_separator, value)
                     )
+            elif character_to_process == ".":
+                # Note: at this point "." is neither the decimal nor the thousands separator.
+                raise errors.FieldValueError(
+                    "decimal separator is %s but must be %s: %s"
+                    % (_compat.text_repr("."), _compat.text_repr(self.decimal_separator), _compat.text_repr(value))
+                )
             else:
                 translated_value += character_to_process
 
